@@ -11,7 +11,7 @@ against reference decompressors).
 "Terminates" is expressed with the models' explicit fuel: there is an amount of fuel from which on the
 result no longer depends on the fuel and is not "still running".
 -/
-import Sqfs.Proofs.XfrmZstdDec
+import Sqfs.Proofs.XfrmWrapErr
 namespace Sqfs.C15
 open Sqfs.Xfrm Sqfs.Xfrm.Spec
 
@@ -289,6 +289,67 @@ theorem backend_truncated_is_error {τ : Type} {L : Lib τ} {b : Backend} (hL : 
       ((∀ op ∈ ops, 0 < op.2) → (xs.flatten ++ xT).length < ops.length → r = .error errCompressor) :=
   truncated_is_error (wrapDecContract hL) hb hms ht ht' hcut script ops hw
 
+/--
+**backend_corrupt_is_error** (gzip.c, xz.c, bzip2.c).  Under the library's error-return convention on input that has gone
+wrong (`LibDecErrContract`: an error code, or progress inside the buffers under the usual rules, never `STREAM_END`; `total_in`
+positive once a bad byte has been consumed), a corrupted `.tar.gz|xz|bz2` — intact members followed by dead bytes: a flipped
+bit that the format's checks catch, trailing garbage, a damaged member header — is reported as `SQFS_ERROR_COMPRESSOR`: for every
+chunking and buffer size, no call hangs, end-of-stream is never reported, at most `budget |c|` bytes of junk follow the intact
+contents, and a reader taking a byte per round gets the error after at most `|contents| + budget |c|` rounds.
+-/
+theorem backend_corrupt_is_error {τ : Type} {L : Lib τ} {b : Backend} (hL : LibDecContract L b Dec) (hE : LibDecErrContract hL)
+    {bufsz : Nat} (hb : 0 < bufsz) {ms xs : List Bytes} (hms : Members Dec ms xs) {c : Bytes} (hc : Dead Dec c)
+    (script : List Nat) (ops : List (Nat × Nat)) (hw : ∀ op ∈ ops, 0 < op.1) :
+    ∃ fuel r, (∀ f, fuel ≤ f → iRead (wrapCodec L b false) bufsz f (iInit (wrapCodec L b false) ⟨ms.flatten ++ c, script⟩) ops [] = some r) ∧
+      (r = .error errCompressor ∨ ∃ st acc, r = .ok (st, acc, false) ∧ Deliv xs.flatten (hE.budget c.length) acc) ∧
+      ((∀ op ∈ ops, 0 < op.2) → xs.flatten.length + hE.budget c.length < ops.length → r = .error errCompressor) :=
+  corrupt_is_error (streamOfDecErr (wrapDecContract hL) (wrapDecErrContract hL hE)) hb hms hc script ops hw
+
+/-- **zstd_corrupt_is_error**: the same for a corrupted `.tar.zst`, under `ZSTD_decompressStream`'s error convention
+(`ZDecErrContract`: an error code, or progress, and never "frame complete" on input that has gone wrong) -/
+theorem zstd_corrupt_is_error {ζ : Type} {Z : ZLib ζ} (hZ : ZDecContract Z Dec) (hE : ZDecErrContract hZ)
+    {bufsz : Nat} (hb : 0 < bufsz) {ms xs : List Bytes} (hms : Members Dec ms xs) {c : Bytes} (hc : Dead Dec c)
+    (script : List Nat) (ops : List (Nat × Nat)) (hw : ∀ op ∈ ops, 0 < op.1) :
+    ∃ fuel r, (∀ f, fuel ≤ f → iRead (zstdCodec Z false) bufsz f (iInit (zstdCodec Z false) ⟨ms.flatten ++ c, script⟩) ops [] = some r) ∧
+      (r = .error errCompressor ∨ ∃ st acc, r = .ok (st, acc, false) ∧ Deliv xs.flatten (hE.budget c.length) acc) ∧
+      ((∀ op ∈ ops, 0 < op.2) → xs.flatten.length + hE.budget c.length < ops.length → r = .error errCompressor) :=
+  corrupt_is_error (zstdDecErrStream hZ hE) hb hms hc script ops hw
+
+/-- Non-vacuity of the conventions for input that has gone wrong: the toy engine meets them behind all three interfaces
+(codec, zlib/liblzma/libbz2 style, libzstd style), with budget `n ↦ n`. -/
+theorem toy_error_conventions_satisfiable (P : Toy.Params) (b : Backend) :
+    Nonempty (DecErrContract (Toy.decContract P)) ∧ Nonempty (LibDecErrContract (Toy.decLibContract P b)) ∧
+    Nonempty (ZDecErrContract (Toy.decZLibContract P)) :=
+  ⟨⟨Toy.decErrContract P⟩, ⟨Toy.decLibErrContract P b⟩, ⟨Toy.decZLibErrContract P⟩⟩
+
+/-- Non-vacuity of `Dead`: in the toy format every string that starts with a malformed marker is dead. -/
+theorem toy_dead_example (t : Bytes) : Dead Toy.decode (2 :: t) := by
+  refine ⟨by simp, ?_⟩
+  intro m x hm
+  constructor
+  · rintro ⟨z, hz⟩
+    rw [hz] at hm
+    cases hzt : t ++ z with
+    | nil =>
+      have : (2 :: t) ++ z = [2] := by simp [hzt]
+      rw [this] at hm
+      simp [Toy.decode] at hm
+    | cons b r =>
+      have : (2 :: t) ++ z = 2 :: b :: r := by simp [hzt]
+      rw [this, Toy.decode_cons_cons] at hm
+      simp at hm
+  · rintro ⟨z, hz⟩
+    cases m with
+    | nil => simp [Toy.decode] at hm
+    | cons a m' =>
+      have ha : a = 2 := by
+        have := congrArg List.head? hz
+        simpa using this.symm
+      subst ha
+      cases m' with
+      | nil => simp [Toy.decode] at hm
+      | cons b r => rw [Toy.decode_cons_cons] at hm; simp at hm
+
 /-- hence: `sqfs2tar -c gzip|xz|bzip2`'s output stream is transparent for every library meeting the convention -/
 theorem backend_ostream_transparent {τ : Type} {L : Lib τ} {b : Backend} (hL : LibEncContract L b Dec) {bufsz : Nat}
     (hb : 0 < bufsz) (chunks : List Bytes) :
@@ -379,6 +440,21 @@ example : (match iRead (zstdCodec (Toy.decZLib ⟨5, 5, 5⟩) false) 3 1000
 /-- … and the same stream cut inside the second frame: the error -/
 example : (match iRead (zstdCodec (Toy.decZLib ⟨1, 1, 1⟩) false) 4 1000
       (iInit (zstdCodec (Toy.decZLib ⟨1, 1, 1⟩) false) ⟨Toy.encode [65, 66, 67] ++ (Toy.encode [68, 69]).take 4, []⟩)
+      [(4, 3), (4, 3), (4, 3), (4, 3), (4, 3), (4, 3), (4, 3), (4, 3)] [] with
+    | some (.error e) => some e
+    | _ => none) = some errCompressor := by decide
+
+/-- a concrete corrupted stream: an intact member followed by a malformed marker, through the gzip-style backend loop over
+the toy library: the intact contents, then the error -/
+example : (match iRead (wrapCodec (Toy.decLib ⟨1, 1, 1⟩ Backend.gzip) Backend.gzip false) 4 1000
+      (iInit (wrapCodec (Toy.decLib ⟨1, 1, 1⟩ Backend.gzip) Backend.gzip false) ⟨Toy.encode [65, 66, 67] ++ [1, 68, 2, 9], [1, 0, 1]⟩)
+      [(4, 3), (4, 3), (4, 3), (4, 3), (4, 3), (4, 3), (4, 3), (4, 3)] [] with
+    | some (.error e) => some e
+    | _ => none) = some errCompressor := by decide
+
+/-- … and through the zstd loop -/
+example : (match iRead (zstdCodec (Toy.decZLib ⟨1, 1, 1⟩) false) 4 1000
+      (iInit (zstdCodec (Toy.decZLib ⟨1, 1, 1⟩) false) ⟨Toy.encode [65, 66, 67] ++ [1, 68, 2, 9], [1, 0, 1]⟩)
       [(4, 3), (4, 3), (4, 3), (4, 3), (4, 3), (4, 3), (4, 3), (4, 3)] [] with
     | some (.error e) => some e
     | _ => none) = some errCompressor := by decide
